@@ -62,7 +62,7 @@ def h_unit(cx, kind, noise):
     cx.check("reported_rate_is_battery_rate", eq(rate * V, b.current_charging_power * 1000))
 
 
-def h_sim(cx, stations, station_of, H, battery, L, period, bounds_only=False, est=False, shard=None):
+def h_sim(cx, stations, station_of, H, battery, L, period, bounds_only=False, est=False, shard=None, dry_run=False):
     env.install(cx)
     A = acn()
     snap = Snap()
@@ -76,7 +76,7 @@ def h_sim(cx, stations, station_of, H, battery, L, period, bounds_only=False, es
         b, cap, init, maxp = make_battery(cx, "s%d" % i, battery)
         bats.append((b, cap, init, maxp))
         evs.append(A.EV(a, d, 50000, stations[station_of[i]][0], "sess%d" % i, b))
-    sc = Scripted(cx, stations, max_recompute=1, length=L)
+    sc = Scripted(cx, stations, max_recompute=1, length=L, dry_run=dry_run)
     sim = make_sim(cx, net, sc.algo, evs, period=period)
     sim_ref[0] = sim
     sim.run()
@@ -257,6 +257,10 @@ def jobs(tier):
                           bounds=dict(step="one set_pilot from an arbitrary state satisfying the ledger invariant; all parameters symbolic"),
                           approx=(kind == "continuous"), cost=5))
     js.extend(sim_jobs(tier))
+    S2d = [("PS-2", "EVSE", 208, 0), ("PS-1", "DEADBAND", 240, 0)]
+    for so, H, bat in ([((0, 1), 2, "ideal")] if tier == "quick" else [((0, 1), 3, "ideal"), ((0, 0), 3, "stepwise")]):
+        js.append(Job("sim_dry_run[n=2,sess=%s,H=%d,%s]" % ("".join(map(str, so)), H, bat), h_sim, dict(stations=S2d, station_of=so, H=H, battery=bat, L=1, period=5, dry_run=True), functions=FUNCS + ["acnportal.acnsim.simulator.Simulator.get_active_evs", "acnportal.acnsim.interface.Interface.active_evs"],
+                      expect_tags=("terminated",), max_paths=60000, timeout=3000, bounds=dict(stations=2, sessions=2, horizon=H, battery=bat, scheduler="scripted; charges the EV copies of interface.active_evs as a look-ahead at every call"), cost=200))
     for n_st, n_sess, H in ([(1, 2, 3)] if tier == "quick" else [(1, 2, 4), (2, 3, 3), (1, 3, 3)]):
         js.append(Job("stochastic[st=%d,sess=%d,H=%d]" % (n_st, n_sess, H), h_stochastic, dict(n_st=n_st, n_sess=n_sess, H=H), functions=FUNCS + [
             "acnportal.contrib.acnsim.network.stochastic_network.StochasticNetwork.plugin/unplug/post_charging_update", "acnportal.acnsim.simulator.Simulator.run (order of _store_actual_charging_rates and post_charging_update)"],
